@@ -875,6 +875,128 @@ def gen_find_mtu(repo, consts):
     return "\n".join(out)
 
 
+# ---------------------------------------------------------------- impersonate/mtu.py: the rewrite of the Scapy option list
+def olist_expr(e, env, loc):
+    """Expressions over Scapy's TCP option list [(name, value), ...] -> Gallina over `list topt` (Model/Mtu.v: OMss v | OOther id).
+    -> (term, type) with type in OPT, LIST, B; integer sub-expressions go through `expr`."""
+    if isinstance(e, ast.Name) and e.id in loc:
+        return loc[e.id]
+    if dotted(e) == "tcp.options":
+        return "opts", "LIST"
+    if isinstance(e, ast.Tuple) and len(e.elts) == 2 and isinstance(e.elts[0], ast.Constant) and e.elts[0].value == "MSS":
+        v, tv = expr(e.elts[1], env)
+        if tv != "Z":
+            fail(e, "MSS option value is not an integer")
+        return "(OMss %s)" % v, "OPT"
+    if isinstance(e, ast.IfExp):
+        t, tt = olist_expr(e.test, env, loc)
+        a, ta = olist_expr(e.body, env, loc)
+        b, tb = olist_expr(e.orelse, env, loc)
+        if tt != "B" or ta != tb:
+            fail(e, "conditional expression types")
+        return "(if %s then %s else %s)" % (t, a, b), ta
+    if isinstance(e, ast.UnaryOp) and isinstance(e.op, ast.Not):
+        t, tt = olist_expr(e.operand, env, loc)
+        if tt != "B":
+            fail(e, "not of a non-boolean")
+        return "(negb %s)" % t, "B"
+    if isinstance(e, ast.Compare) and len(e.ops) == 1:
+        l, r, op = e.left, e.comparators[0], e.ops[0]
+        # option[0] == "MSS"
+        if isinstance(l, ast.Subscript) and isinstance(l.slice, ast.Constant) and l.slice.value == 0 and isinstance(r, ast.Constant) and r.value == "MSS" \
+                and isinstance(op, (ast.Eq, ast.NotEq)):
+            b, tb = olist_expr(l.value, env, loc)
+            if tb != "OPT":
+                fail(e, "[0] of a non-option")
+            return ("(is_mss %s)" if isinstance(op, ast.Eq) else "(negb (is_mss %s))") % b, "B"
+        # dict(<list>).get("MSS") is [not] None      (Scapy never stores None as the value of an MSS option: assumed)
+        if isinstance(op, (ast.Is, ast.IsNot)) and isinstance(r, ast.Constant) and r.value is None and isinstance(l, ast.Call) \
+                and isinstance(l.func, ast.Attribute) and l.func.attr == "get" and len(l.args) == 1 and not l.keywords \
+                and isinstance(l.args[0], ast.Constant) and l.args[0].value == "MSS" and isinstance(l.func.value, ast.Call) \
+                and dotted(l.func.value.func) == "dict" and len(l.func.value.args) == 1 and not l.func.value.keywords:
+            b, tb = olist_expr(l.func.value.args[0], env, loc)
+            if tb != "LIST":
+                fail(e, "dict() of a non-list")
+            return ("(existsb is_mss %s)" if isinstance(op, ast.IsNot) else "(negb (existsb is_mss %s))") % b, "B"
+        fail(e, "comparison")
+    if isinstance(e, ast.ListComp) and len(e.generators) == 1 and isinstance(e.generators[0].target, ast.Name) and not e.generators[0].is_async:
+        g = e.generators[0]
+        src, ts = olist_expr(g.iter, env, loc)
+        if ts != "LIST":
+            fail(e, "comprehension over a non-list")
+        v = g.target.id + "_"
+        loc2 = dict(loc)
+        loc2[g.target.id] = (v, "OPT")
+        for c in g.ifs:
+            t, tt = olist_expr(c, env, loc2)
+            if tt != "B":
+                fail(c, "comprehension filter")
+            src = "(filter (fun %s => %s) %s)" % (v, t, src)
+        b, tb = olist_expr(e.elt, env, loc2)
+        if tb != "OPT":
+            fail(e, "comprehension element")
+        return "(map (fun %s => %s) %s)" % (v, b, src), "LIST"
+    if isinstance(e, ast.List):
+        parts = []
+        for x in e.elts:
+            if isinstance(x, ast.Starred):
+                b, tb = olist_expr(x.value, env, loc)
+                if tb != "LIST":
+                    fail(x, "* of a non-list")
+                parts.append(b)
+            else:
+                b, tb = olist_expr(x, env, loc)
+                if tb != "OPT":
+                    fail(x, "list element")
+                parts.append("[%s]" % b)
+        return "(%s)" % " ++ ".join(parts or ["[]"]), "LIST"
+    if isinstance(e, ast.BinOp) and isinstance(e.op, ast.Add):
+        a, ta = olist_expr(e.left, env, loc)
+        b, tb = olist_expr(e.right, env, loc)
+        if (ta, tb) != ("LIST", "LIST"):
+            fail(e, "+ of non-lists")
+        return "(%s ++ %s)" % (a, b), "LIST"
+    fail(e, "option-list expression")
+
+
+def gen_imp_mtu(repo, consts):
+    """impersonate/mtu.py: everything after the signature has been chosen - the new MSS value and the rewritten option list."""
+    f = find_function(ast.parse(open(os.path.join(repo, "pyp0f/impersonate/mtu.py")).read()), "impersonate")
+    body = [s for s in f.body if not (isinstance(s, ast.Expr) and isinstance(s.value, ast.Constant))]
+    pre = ["validate_for_impersonation(packet)", "tcp = packet[ScapyTCP]"]
+    if [ast.unparse(x) for x in body[:2]] != pre:
+        fail(f, "impersonate_mtu prologue")
+    sel = body[2]
+    want = ("if raw_signature is not None:\n    signature = MTUSignature.parse(raw_signature)\nelse:\n    if raw_label is None:\n"
+            "        raise ValueError('raw_label or raw_signature is required to impersonate!')\n"
+            "    signature = database.get_random(raw_label, MTURecord).signature")
+    if ast.unparse(sel) != want:
+        fail(sel, "impersonate_mtu signature selection")
+    env = Env({"signature.mtu": ("m", "Z"), "packet.version": ("ver", "Z")}, consts)
+    loc, lets, done = {}, [], False
+    rest = body[3:]
+    if not rest or ast.unparse(rest[-1]) != "return packet":
+        fail(f, "impersonate_mtu must return the packet it was given")
+    for st in rest[:-1]:
+        if done:
+            fail(st, "statement after the option list has been assigned")
+        if not (isinstance(st, ast.Assign) and len(st.targets) == 1):
+            fail(st, "statement")
+        t, ty = olist_expr(st.value, env, loc)
+        if isinstance(st.targets[0], ast.Name) and st.targets[0].id not in ("packet", "tcp", "signature", "database"):
+            v = st.targets[0].id + "_"
+            lets.append("let %s := %s in" % (v, t))
+            loc[st.targets[0].id] = (v, ty)
+        elif dotted(st.targets[0]) == "tcp.options" and ty == "LIST":
+            lets.append(t)
+            done = True
+        else:
+            fail(st, "assignment target")
+    if not done:
+        fail(f, "tcp.options is never assigned")
+    return "Definition gen_impersonate_mtu (m ver : Z) (opts : list topt) : list topt :=\n  %s." % "\n  ".join(lets)
+
+
 def gen_distance_fn(repo, consts):
     out = []
     # TCPResult.__post_init__: the reported distance
@@ -973,7 +1095,7 @@ GROUPS = {
     "match": ([], [gen_win_multi, gen_match]),
     "uptime": ([], [gen_round, gen_gates, lambda r, c: gen_valid_for(r, c, "uptime")]),
     "select": (["match"], [gen_guess, gen_gates, lambda r, c: gen_valid_for(r, c, "tcp"), gen_find_tcp, gen_distance_fn]),
-    "mtu": ([], [gen_gates, lambda r, c: gen_valid_for(r, c, "mtu"), gen_mtu_sig, gen_find_mtu]),
+    "mtu": ([], [gen_gates, lambda r, c: gen_valid_for(r, c, "mtu"), gen_mtu_sig, gen_find_mtu, gen_imp_mtu]),
     "options": ([], [gen_options]),
     "http": ([], [gen_http]),
 }
